@@ -216,3 +216,48 @@ func TestReplay(t *testing.T) {
 	}
 	t.Log("the recorded program parses without errors; tree comparisons replay through the rapid seed in the replay file")
 }
+
+// TestOperatorNests: the exhaustive operator-nest enumeration (phpgen/opnest.go) — every operator
+// inside every operand position of every operator (and every triple inside the fusion families; all
+// triples in the thorough tier), rendered with only the mandatory separators and with single spaces.
+// Each rendering must parse to the enumerated tree: this is the precedence / associativity clause on
+// the complete operator-pair matrix instead of a sample of it.
+func TestOperatorNests(t *testing.T) {
+	for _, v := range []px.Ver{px.V74, px.V56} {
+		failed := false
+		progs.EachNest(v, false, func(name string, build func() *progs.NestProgram) bool {
+			for _, kind := range []phpgen.PolicyKind{phpgen.PolicyMinimal, phpgen.PolicySpace} {
+				np := build()
+				if np == nil {
+					return true
+				}
+				src := np.G.Render(np.Root, phpgen.Policy{Kind: kind}).Src
+				r := px.Parse(src, v, true)
+				harness.Eval()
+				harness.Class("operator-nest")
+				fail := func(clause, format string, a ...interface{}) bool {
+					harness.Failf(t, "operator-nests/"+clause, src, meta(v), "[%s] %s: %s\nsource: %q", v, name, fmt.Sprintf(format, a...), src)
+					failed = true
+					return false
+				}
+				if r.Panic != "" {
+					return fail("panic", "panic: %s", r.Panic)
+				}
+				if len(r.Errs) > 0 || r.Root == nil {
+					return fail("valid-rejected", "valid expression rejected: %s", px.ErrString(r.Errs))
+				}
+				if d := astx.Equal(r.Root, np.Root, astx.Structure); d != "" {
+					return fail("tree", "parsed tree differs from the enumerated one (parsed vs model): %s", d)
+				}
+				if d := astx.Equal(r.Root, np.Root, astx.WithTokens|astx.WithPositions); d != "" {
+					return fail("tokens", "parsed tokens/positions differ from the model's: %s", d)
+				}
+				harness.NonTrivial([]byte(v.String()+name+fmt.Sprint(kind)), fmt.Sprintf("[%s] %s: %q", v, name, src))
+			}
+			return true
+		})
+		if failed {
+			return
+		}
+	}
+}
